@@ -54,7 +54,14 @@ func genNetTopology(rt *rapid.T, minConn, maxConn, minAgents, maxAgents, maxPort
 		for k := 0; k < np; k++ {
 			ai := rapid.IntRange(0, na-1).Draw(rt, "owner")
 			cp := rapid.IntRange(1, 4).Draw(rt, "cap")
-			c.Agents[ai].Ports = append(c.Agents[ai].Ports, netPort{Conn: ci, Cap: cp})
+			pt := netPort{Conn: ci, Cap: cp}
+			if rapid.IntRange(0, 3).Draw(rt, "asym") == 0 {
+				// incoming and outgoing capacities differ (messaging.NewPort)
+				if oc := rapid.IntRange(1, 4).Draw(rt, "outcap"); oc != cp {
+					pt.OutCap = oc
+				}
+			}
+			c.Agents[ai].Ports = append(c.Agents[ai].Ports, pt)
 			byConn[ci] = append(byConn[ci], slotRef{ai, len(c.Agents[ai].Ports) - 1})
 		}
 	}
@@ -212,6 +219,7 @@ func c09Classes(c netCase, r *netRun) []string {
 	if r.rec.sendBlocked > 0 {
 		cl = append(cl, "sender-saw-full-port")
 	}
+	cl = append(cl, asymClasses(c, r)...)
 	if !r.allDrain() {
 		cl = append(cl, "has-non-draining-agent")
 	} else {
@@ -255,7 +263,7 @@ func judgeC09(s *kit.Session, f kit.Failer, c netCase, compensate bool) (r *netR
 
 func TestC09Topology(t *testing.T) {
 	s := kit.Begin(t, "C09", "topology",
-		"2-6 agents (ticking modeling.Component+middleware at 1/2/1.5/3 GHz, 800/500/333.3 MHz, 7 MHz, or EventDrivenComponent+processor), 1-3 direct connections (1/2/0.5/1.5/3 GHz, 800 MHz), 2-4 ports per connection owned by drawn agents, caps 1-4; per agent 0-3 timer bursts (times = k*connection period, k<=6, 40% off-edge variants), 0-3 receipt-driven forwards fired in the same activation, 10% non-draining agents, occasional read stalls. Oracle at Run's return (empty queue): no outgoing head whose destination CanDeliver, no unread input at a draining agent, no unsent State work with a free port, no unfired timer; all-drain cases: sent multiset == consumed multiset. Non-trivial: a send happened on a connection that had already handled its tick at that very instant (from the engine BeforeEvent trace)")
+		"2-6 agents (ticking modeling.Component+middleware at 1/2/1.5/3 GHz, 800/500/333.3 MHz, 7 MHz, or EventDrivenComponent+processor), 1-3 direct connections (1/2/0.5/1.5/3 GHz, 800 MHz), 2-4 ports per connection owned by drawn agents, caps 1-4 (19% of the ports with different incoming/outgoing capacities, built with messaging.NewPort+RegisterPort instead of PortBuilder); per agent 0-3 timer bursts (times = k*connection period, k<=6, 40% off-edge variants), 0-3 receipt-driven forwards fired in the same activation, 10% non-draining agents, occasional read stalls. Oracle at Run's return (empty queue): no outgoing head whose destination CanDeliver, no unread input at a draining agent, no unsent State work with a free port, no unfired timer; all-drain cases: sent multiset == consumed multiset. Non-trivial: a send happened on a connection that had already handled its tick at that very instant (from the engine BeforeEvent trace)")
 	defer s.End()
 	s.Assume("harness agents follow the examples' idioms (CanSend before Send, unsent work in State, woken only by NotifyRecv/NotifyPortFree/own timers/external TickLater kick)")
 
@@ -321,4 +329,36 @@ func TestC09Known_TickNowSameInstant(t *testing.T) {
 	}
 	s.KnownStillFails(t, c, probs[0].sig, probs[0].msg)
 	s.Note(c, true, "recipe-stalls")
+}
+
+// asymClasses labels cases with ports whose incoming and outgoing capacities
+// differ, judged on what happened: the port's incoming buffer actually filled.
+func asymClasses(c netCase, r *netRun) []string {
+	var cl []string
+	less, more, filled := false, false, false
+	for ai, a := range c.Agents {
+		for pi, p := range a.Ports {
+			if p.OutCap == 0 || p.OutCap == p.Cap {
+				continue
+			}
+			if p.Cap < p.OutCap {
+				less = true
+			} else {
+				more = true
+			}
+			if r.rec.maxInOcc[netPortName(ai, pi)] >= p.Cap {
+				filled = true
+			}
+		}
+	}
+	if less {
+		cl = append(cl, "asym-port:in<out")
+	}
+	if more {
+		cl = append(cl, "asym-port:in>out")
+	}
+	if filled {
+		cl = append(cl, "asym-port-incoming-filled")
+	}
+	return cl
 }
